@@ -118,6 +118,19 @@ def gen_cases(ctx):
         for v in ("{}", '{"v":{}}', '{"v":{"l":[2]}}', '{"v":{"l":2,"n":{"a":1},"m":{"a":2}}}', '{"v":[{"k":1}]}',
                   '{"v":{"n":null}}', '{"v":null}'):
             cases.append((sch, doc, v))
+    # input object field matrix: one field of every wrapped type over a scalar and an input object, with and without
+    # a default, omitted / null / provided (a required field of list type behaves like one of named type)
+    for fbase, right, dflts in (("Int", "4", ["5", "[5]", "[[5]]"]), ("N", '{"a":4}', ["{a: 5}", "[{a: 5}]"]),
+                                ("String", '"s"', ['"d"', '["d"]'])):
+        for w in wrappers(2):
+            fty = w % fbase
+            for d in [None] + dflts:
+                extra = f"input M {{ k: {fty}{'' if d is None else ' = ' + d}, o: Int }}\n"
+                for vty in ("M", "M!", "[M!]"):
+                    sch, doc = schema_for(vty, extra), doc_for(vty)
+                    for v in ("{}", '{"o":1}', '{"k":null}', '{"k":%s}' % right, '{"k":[%s]}' % right, '{"k":[[%s]],"o":2}' % right,
+                              '{"k":[null]}'):
+                        cases.append((sch, doc, '{"v":%s}' % v))
     # several variables: the domain of the result
     sch = FIXED + "type Query { f(a: Int, b: Int, c: Int!, d: [Int], e: I, g: String! = \"x\"): Int }\n"
     doc = 'query($a: Int, $b: Int = 2, $c: Int!, $d: [Int] = [1], $e: I, $g: String! = "y") { f(a: $a, b: $b, c: $c, d: $d, e: $e, g: $g) }'
